@@ -1,0 +1,64 @@
+#pragma once
+
+///
+/// \brief verification hooks (active only with -DNANO_VERIF): selected algorithms report their intermediate
+///     decisions and numbers to an optional per-thread observer installed by a test harness.
+///     Without the define every macro below expands to nothing.
+///
+#ifdef NANO_VERIF
+
+#include <cstddef>
+#include <nano/arch.h>
+#include <type_traits>
+#include <vector>
+
+namespace nano::verif
+{
+using trace_sink_t = void (*)(const char* tag, const double* values, size_t count);
+
+///
+/// \brief the observer of the calling thread (nullptr by default).
+///
+NANO_PUBLIC trace_sink_t& trace_sink();
+
+namespace detail
+{
+template <class tvalue>
+void append(std::vector<double>& values, const tvalue& value)
+{
+    if constexpr (std::is_arithmetic_v<tvalue> || std::is_enum_v<tvalue>)
+    {
+        values.push_back(static_cast<double>(value));
+    }
+    else
+    {
+        // a vector, matrix or tensor: its number of elements followed by the elements
+        const auto size = static_cast<size_t>(value.size());
+        values.push_back(static_cast<double>(size));
+        for (size_t i = 0; i < size; ++i)
+        {
+            values.push_back(static_cast<double>(value.data()[i]));
+        }
+    }
+}
+} // namespace detail
+
+template <class... tvalues>
+void trace(const char* tag, const tvalues&... values)
+{
+    if (const auto sink = trace_sink(); sink != nullptr)
+    {
+        std::vector<double> buffer;
+        (detail::append(buffer, values), ...);
+        sink(tag, buffer.data(), buffer.size());
+    }
+}
+} // namespace nano::verif
+
+#define NANO_VERIF_TRACE(...) ::nano::verif::trace(__VA_ARGS__)
+
+#else
+
+#define NANO_VERIF_TRACE(...) ((void)0)
+
+#endif
